@@ -135,8 +135,8 @@ def norm(e, subst):
         for a in A:
             if any(v % c for v in a[0].values()):
                 raise Unproven("division of a form whose coefficients are not multiples of the divisor")
-            if a[1] < 0:
-                raise Unproven("division of a possibly negative value")
+            # (c*X + k) / c = X + floor(k / c) for every integer k as long as the dividend itself is non-negative, which holds for
+            # usize arithmetic that did not overflow (overflow is O-wrap's business)
             if k == "div":
                 out.append(({kk: v // c for kk, v in a[0].items()}, a[1] // c))
             else:
